@@ -1,4 +1,4 @@
-/- GENERATED on every run by vlib/srcobj.py from the typed clang AST of /repo/src/encoder.cpp, packet.cpp and decoder.cpp — do not edit. -/
+/- GENERATED on every run by vlib/srcobj.py from the typed clang AST of /repo/src/encoder.cpp, packet.cpp, decoder.cpp, status.cpp, device_status.cpp, interface_status.cpp — do not edit. -/
 import AsamCmp.GeneratedSrc
 import AsamCmp.Src.Obj
 set_option linter.unusedVariables false
@@ -593,5 +593,148 @@ def Decoder_isSegmentedPacket_obj (s : Decoder_St) (m : Bytes) (a_data : Nat) (a
   pure (s, (t2 != 0))
 
 def Decoder_untranslated : List (String × String) := []
+
+/-- state of `ASAM::CMP::InterfaceStatus`: one field per data member -/
+structure InterfaceStatus_St where
+  f_interfacePacket : OPkt
+  f_interfaceId : Nat
+deriving Repr, Inhabited
+
+def InterfaceStatus_default : InterfaceStatus_St := { f_interfacePacket := defaultPacket, f_interfaceId := 0 }
+
+/-- `ASAM::CMP::InterfaceStatus::getInterfaceId` -/
+def InterfaceStatus_getInterfaceId_obj (s : InterfaceStatus_St)  : Option (InterfaceStatus_St × Nat) := do
+  pure (s, s.f_interfaceId)
+
+/-- `ASAM::CMP::InterfaceStatus::update` -/
+def InterfaceStatus_update_obj (s : InterfaceStatus_St) (a_packet : OPkt) : Option (InterfaceStatus_St × Unit) := do
+  let s := { s with f_interfaceId := (opq a_packet "getPayload.as_InterfacePayload.getInterfaceId") }
+  let s := { s with f_interfacePacket := a_packet }
+  pure (s, ())
+
+def InterfaceStatus_untranslated : List (String × String) := [("ASAM::CMP::InterfaceStatus::getPacket ASAM::CMP::Packet &()", "reference type ASAM::CMP::Packet &"), ("ASAM::CMP::InterfaceStatus::getPacket const ASAM::CMP::Packet &() const", "reference type const ASAM::CMP::Packet &"), ("ASAM::CMP::InterfaceStatus::operator= ASAM::CMP::InterfaceStatus &(ASAM::CMP::", "reference type ASAM::CMP::InterfaceStatus &")]
+
+/-- state of `ASAM::CMP::DeviceStatus`: one field per data member -/
+structure DeviceStatus_St where
+  f_interfaces : List InterfaceStatus_St
+  f_devicePacket : OPkt
+deriving Repr, Inhabited
+
+def DeviceStatus_default : DeviceStatus_St := { f_interfaces := [], f_devicePacket := defaultPacket }
+
+/-- `ASAM::CMP::DeviceStatus::getIndexByInterfaceId` -/
+def DeviceStatus_getIndexByInterfaceId_obj (s : DeviceStatus_St) (a_interfaceId : Nat) : Option (DeviceStatus_St × Nat) := do
+  pure (s, (findIdxD (fun e_ => (e_.f_interfaceId == a_interfaceId)) s.f_interfaces))
+
+/-- `ASAM::CMP::DeviceStatus::getInterfaceStatusCount` -/
+def DeviceStatus_getInterfaceStatusCount_obj (s : DeviceStatus_St)  : Option (DeviceStatus_St × Nat) := do
+  pure (s, (s.f_interfaces).length)
+
+/-- `ASAM::CMP::DeviceStatus::removeInterfaceById` -/
+def DeviceStatus_removeInterfaceById_obj (s : DeviceStatus_St) (a_interfaceId : Nat) : Option (DeviceStatus_St × Unit) := do
+  let (s, t1) ← DeviceStatus_getIndexByInterfaceId_obj s a_interfaceId
+  let v_index := t1
+  let (s, t2) ← DeviceStatus_getInterfaceStatusCount_obj s 
+  let (s) ← (if (v_index != t2) then (do
+      let t3 ← swapIdx s.f_interfaces v_index (usub 64 (s.f_interfaces).length 1)
+      let s := { s with f_interfaces := t3 }
+      let _ ← nonEmptyL s.f_interfaces
+      let s := { s with f_interfaces := (s.f_interfaces).dropLast }
+      pure (s))
+    else (do
+      pure (s)))
+  pure (s, ())
+
+/-- `ASAM::CMP::DeviceStatus::updateInterfaces` -/
+def DeviceStatus_updateInterfaces_obj (s : DeviceStatus_St) (a_packet : OPkt) : Option (DeviceStatus_St × Unit) := do
+  let v_newId := (opq a_packet "getPayload.as_InterfacePayload.getInterfaceId")
+  let (s, t1) ← DeviceStatus_getIndexByInterfaceId_obj s v_newId
+  let v_index := t1
+  let (s, t2) ← DeviceStatus_getInterfaceStatusCount_obj s 
+  let (s) ← (if (v_index != t2) then (do
+      let el4 ← getIdx s.f_interfaces v_index
+      let (el4, t3) ← InterfaceStatus_update_obj el4 a_packet
+      let s := { s with f_interfaces := (s.f_interfaces).set v_index el4 }
+      pure (s))
+    else (do
+      let v_interfaceStatus := InterfaceStatus_default
+      let (v_interfaceStatus, t5) ← InterfaceStatus_update_obj v_interfaceStatus a_packet
+      let s := { s with f_interfaces := s.f_interfaces ++ [v_interfaceStatus] }
+      pure (s)))
+  pure (s, ())
+
+/-- `ASAM::CMP::DeviceStatus::update` -/
+def DeviceStatus_update_obj (s : DeviceStatus_St) (a_packet : OPkt) : Option (DeviceStatus_St × Unit) := do
+  let (s) ← (if ((opq a_packet "getPayload.getType") == 770) then (do
+      let (s, _) ← DeviceStatus_updateInterfaces_obj s a_packet
+      pure (s))
+    else (do
+      pure (s)))
+  let (s) ← (if ((opq a_packet "getPayload.getType") == 769) then (do
+      let s := { s with f_devicePacket := a_packet }
+      pure (s))
+    else (do
+      pure (s)))
+  pure (s, ())
+
+def DeviceStatus_untranslated : List (String × String) := [("ASAM::CMP::DeviceStatus::getInterfaceStatus ASAM::CMP::InterfaceStatus &(std::size_t", "reference type ASAM::CMP::InterfaceStatus &"), ("ASAM::CMP::DeviceStatus::getInterfaceStatus const ASAM::CMP::InterfaceStatus &(std::", "reference type const ASAM::CMP::InterfaceStatus &"), ("ASAM::CMP::DeviceStatus::getPacket ASAM::CMP::Packet &()", "reference type ASAM::CMP::Packet &"), ("ASAM::CMP::DeviceStatus::getPacket const ASAM::CMP::Packet &() const", "reference type const ASAM::CMP::Packet &"), ("ASAM::CMP::DeviceStatus::operator= ASAM::CMP::DeviceStatus &(ASAM::CMP::Dev", "reference type ASAM::CMP::DeviceStatus &")]
+
+/-- state of `ASAM::CMP::Status`: one field per data member -/
+structure Status_St where
+  f_devices : List DeviceStatus_St
+deriving Repr, Inhabited
+
+def Status_default : Status_St := { f_devices := [] }
+
+/-- `ASAM::CMP::Status::clear` -/
+def Status_clear_obj (s : Status_St)  : Option (Status_St × Unit) := do
+  let s := { s with f_devices := [] }
+  pure (s, ())
+
+/-- `ASAM::CMP::Status::getDeviceStatusCount` -/
+def Status_getDeviceStatusCount_obj (s : Status_St)  : Option (Status_St × Nat) := do
+  pure (s, (s.f_devices).length)
+
+/-- `ASAM::CMP::Status::getIndexByDeviceId` -/
+def Status_getIndexByDeviceId_obj (s : Status_St) (a_deviceId : Nat) : Option (Status_St × Nat) := do
+  pure (s, (findIdxD (fun e_ => ((opq e_.f_devicePacket "getDeviceId") == a_deviceId)) s.f_devices))
+
+/-- `ASAM::CMP::Status::removeDeviceById` -/
+def Status_removeDeviceById_obj (s : Status_St) (a_deviceId : Nat) : Option (Status_St × Unit) := do
+  let (s, t1) ← Status_getIndexByDeviceId_obj s a_deviceId
+  let v_index := t1
+  let (s, t2) ← Status_getDeviceStatusCount_obj s 
+  let (s) ← (if (v_index != t2) then (do
+      let t3 ← swapIdx s.f_devices v_index (usub 64 (s.f_devices).length 1)
+      let s := { s with f_devices := t3 }
+      let _ ← nonEmptyL s.f_devices
+      let s := { s with f_devices := (s.f_devices).dropLast }
+      pure (s))
+    else (do
+      pure (s)))
+  pure (s, ())
+
+/-- `ASAM::CMP::Status::update` -/
+def Status_update_obj (s : Status_St) (a_packet : OPkt) : Option (Status_St × Unit) := do
+  let (s, t1) ← Status_getIndexByDeviceId_obj s (opq a_packet "getDeviceId")
+  let v_index := t1
+  let (s, t2) ← Status_getDeviceStatusCount_obj s 
+  let (s) ← (if (decide (v_index < t2)) then (do
+      let el4 ← getIdx s.f_devices v_index
+      let (el4, t3) ← DeviceStatus_update_obj el4 a_packet
+      let s := { s with f_devices := (s.f_devices).set v_index el4 }
+      pure (s))
+    else (do
+      let (s) ← (if ((opq a_packet "getPayload.getType") == 769) then (do
+          let v_deviceStatus := DeviceStatus_default
+          let (v_deviceStatus, t5) ← DeviceStatus_update_obj v_deviceStatus a_packet
+          let s := { s with f_devices := s.f_devices ++ [v_deviceStatus] }
+          pure (s))
+        else (do
+          pure (s)))
+      pure (s)))
+  pure (s, ())
+
+def Status_untranslated : List (String × String) := [("ASAM::CMP::Status::getDeviceStatus ASAM::CMP::DeviceStatus &(std::size_t)", "reference type ASAM::CMP::DeviceStatus &"), ("ASAM::CMP::Status::getDeviceStatus const ASAM::CMP::DeviceStatus &(std::siz", "reference type const ASAM::CMP::DeviceStatus &")]
 
 end AsamCmp.SrcGen
